@@ -192,6 +192,22 @@ class SourceIndex:
                 return out or [r]
             return [r] if r in self.funcs else []
         if isinstance(fn, ast.Attribute):
+            # super().method(): the method of a base class
+            if isinstance(fn.value, ast.Call) and isinstance(fn.value.func, ast.Name) and fn.value.func.id == "super" and f.cls is not None:
+                out = []
+                work = self.bases(f.qual.rsplit(".", 1)[0])
+                seen = set()
+                while work:
+                    c = work.pop()
+                    if c in seen:
+                        continue
+                    seen.add(c)
+                    ms = self.class_methods(c)
+                    if fn.attr in ms:
+                        out.append(ms[fn.attr])
+                    else:
+                        work.extend(self.bases(c))
+                return out
             # module.attr
             if isinstance(fn.value, ast.Name):
                 tgt = self.imports.get(f.module, {}).get(fn.value.id)
@@ -222,7 +238,10 @@ class SourceIndex:
                                 q for q in self.methods_named(fn.attr) if q != ms[fn.attr]
                             ]
                         work.extend(self.bases(c))
-            # unknown receiver: every method of that name in the package
+            # unknown receiver: every method of that name in the package (dunder methods are never
+            # called this way on package objects)
+            if fn.attr.startswith("__") and fn.attr.endswith("__"):
+                return []
             return self.methods_named(fn.attr)
         return []
 
